@@ -22,6 +22,25 @@ theorem chunking_independent {P : Bytes → Bool} {cfg : Cfg} {dv : LineDev} (hf
   obtain ⟨rs2, w2, h2, e2, wr2, _⟩ := session_in_step hf stripPrompt inputs hg { avail := res, cuts := cuts2 } hres
   exact ⟨rs1, w1, rs2, w2, h1, h2, by rw [e1, e2], by rw [wr1, wr2]⟩
 
+/-- **chunking independence for sessions mixing get_prompt and commands**: any two segmentations
+    give the same list of results (processed command results and prompts) and the same writes. -/
+theorem mixed_chunking_independent {P : Bytes → Bool} {cfg : Cfg} {dv : LineDev} (hf : Fits P cfg dv)
+    (hfirst : ∀ x L, (splitNL x).find? P = some L →
+      ∃ m, cfg.prompt.first x = some m ∧ strip m = strip L)
+    (hout : dv.out [] = []) (stripPrompt : Bool) (ops : List COp)
+    (hg : ∀ i, COp.cmd i ∈ ops → GoodCmd P dv i)
+    (res : Bytes) (hres : ∀ x ∈ res, isHws x = true) (cuts1 cuts2 : List Nat) :
+    ∃ rs w1 w2,
+      runOps cfg dv.onWrite stripPrompt ops ({ avail := res, cuts := cuts1 }, []) = some (rs, (w1, [])) ∧
+      runOps cfg dv.onWrite stripPrompt ops ({ avail := res, cuts := cuts2 }, []) = some (rs, (w2, [])) ∧
+      w1.writes = w2.writes := by
+  obtain ⟨rs1, w1, h1, e1, wr1, _⟩ :=
+    mixed_session_in_step hf hfirst hout stripPrompt ops hg { avail := res, cuts := cuts1 } hres
+  obtain ⟨rs2, w2, h2, e2, wr2, _⟩ :=
+    mixed_session_in_step hf hfirst hout stripPrompt ops hg { avail := res, cuts := cuts2 } hres
+  subst e1 e2
+  exact ⟨_, w1, w2, h1, h2, by rw [wr1, wr2]⟩
+
 /-! ### carriage returns -/
 
 theorem stripCR_append (a b : Bytes) : stripCR (a ++ b) = stripCR a ++ stripCR b := by
